@@ -29,6 +29,12 @@ def check(prog, ctx):
     if env.outcome[0] == "exc" and isinstance(getattr(env, "raised", None), engine.HExc) and prog.get("conv") != "wrapper":
         if root.handle is not None and root.handle.is_computed() and root.handle._error is not env.raised:
             viol.append(("C02.identity", "value() raised a different object than the root task's error()"))
+    if not viol:
+        env_b = oracles.again(prog, env)
+        if env_b is not None:
+            r_b, exp_b = oracles.reference(prog, env_b)
+            viol += oracles.second(oracles.clauses(env_b, "C02.") + oracles.compare_with_reference(env_b, r_b, exp_b, "C02.propagation"))
+            ctx.label("run-twice-on-one-scheduler")
     levels = max([len(v) for v in env.deliveries.values()] or [0])
     ctx.label("delivered", bool(env.deliveries))
     ctx.label("delivered-multi-future-yield", env.delivered_multi > 0)
